@@ -31,7 +31,7 @@ func init() { register("C14", checkC14) }
 type c14Case struct {
 	Type   string            `json:"type"`
 	Seed   int64             `json:"seed"`
-	Mode   string            `json:"mode"` // edits | independent | dense | split
+	Mode   string            `json:"mode"` // edits | independent | dense | split | exception
 	Edits  []string          `json:"edits"`
 	Device string            `json:"device"`
 	Files  map[string]string `json:"files"`
@@ -43,7 +43,8 @@ func genC14(kind string, seed int64) *c14Case {
 	t := gen.Target()
 	c := &c14Case{Type: kind, Seed: seed, Mode: "edits"}
 	var d *mcisco.GConf
-	if rng.Intn(3) == 0 {
+	mode := rng.Intn(7) // 0 independent, 1-2 edits, 3 dense, 4-5 split, 6 exception
+	if mode == 0 {
 		// Independent draw of the old ACLs for the same bindings.
 		c.Mode = "independent"
 		d, _ = gen.Device(t, 0, false)
@@ -66,8 +67,55 @@ func genC14(kind string, seed int64) *c14Case {
 		} else if kind == "ios" {
 			d.Routes = other.Routes
 		}
-	} else if rng.Intn(2) == 0 {
+	} else if mode <= 2 {
 		d, c.Edits = gen.Device(t, 1+rng.Intn(5), false)
+	} else if mode == 6 {
+		// An exception entry in front of the broad entry it carves out of;
+		// the target replaces the exception by a wider one further down and
+		// moves the broad entry behind it, between other changes.
+		c.Mode = "exception"
+		d, _ = gen.Device(t, 0, false)
+		if len(d.ACLs) > 0 {
+			a := d.ACLs[0]
+			anyW, net := "any", "10.1.1.0 0.0.0.255"
+			if kind == "asa" {
+				anyW, net = "any4", "10.1.1.0 255.255.255.0"
+			}
+			x, y := "deny", "permit" // block action, exception action
+			if rng.Intn(3) == 0 {
+				x, y = y, x
+			}
+			h := func(n int) string { return fmt.Sprintf("host 10.1.1.%d", n) }
+			dst := 1 + rng.Intn(4)
+			exc := fmt.Sprintf("%s ip %s %s", y, h(1+rng.Intn(4)), h(dst))
+			excWide := fmt.Sprintf("%s ip %s %s", y, net, h(dst))
+			if rng.Intn(3) == 0 {
+				excWide = exc
+			}
+			broad := fmt.Sprintf("%s ip %s %s", x, anyW, h(dst))
+			var others []string
+			for k := 1; k <= 4; k++ {
+				if k != dst && rng.Intn(4) != 0 {
+					others = append(others, fmt.Sprintf("%s ip %s %s", x, anyW, h(k)))
+				}
+			}
+			fresh := fmt.Sprintf("%s ip %s 10.1.2.0 %s", x, anyW, strings.Fields(net)[1])
+			tail := fmt.Sprintf("%s ip %s %s", y, anyW, anyW)
+			dl := append([]string{exc, broad}, others...)
+			dl = append(dl, tail)
+			tl := append([]string{}, others...)
+			if rng.Intn(4) != 0 {
+				tl = append(tl, fresh)
+			}
+			tl = append(tl, excWide, broad, tail)
+			a.Lines = dl
+			for _, ta := range t.ACLs {
+				if ta.Name == a.Name {
+					ta.Lines = tl
+				}
+			}
+			c.Edits = []string{"exception-replaced-and-moved"}
+		}
 	} else {
 		// Several interacting line edits inside the longest ACL.
 		c.Mode = "dense"
@@ -90,7 +138,7 @@ func genC14(kind string, seed int64) *c14Case {
 					ta.Lines = append([]string{}, a.Lines...)
 				}
 			}
-			if rng.Intn(2) == 0 {
+			if mode == 3 {
 				for n := 3 + rng.Intn(4); n > 0; n-- {
 					gen.LineEdit(d, a)
 				}
@@ -104,29 +152,93 @@ func genC14(kind string, seed int64) *c14Case {
 				if rng.Intn(4) == 0 {
 					x, y = y, x
 				}
-				withAction := func(act string) string {
-					w := strings.Fields(gen.ACE(d))
-					w[0] = act
-					return strings.Join(w, " ")
+				// Narrow entries form the block, broad ones split it, so
+				// that a splitter overlaps the entries around it and a
+				// wrong relative order is visible in packet verdicts.
+				anyW, net := "any", func(n int) string { return fmt.Sprintf("10.1.%d.0 0.0.0.255", n) }
+				if kind == "asa" {
+					anyW, net = "any4", func(n int) string { return fmt.Sprintf("10.1.%d.0 255.255.255.0", n) }
+				}
+				host := func() string { return fmt.Sprintf("host 10.1.1.%d", 1+rng.Intn(4)) }
+				narrow := func(act string) string {
+					proto := []string{"tcp", "udp", "ip"}[rng.Intn(3)]
+					src := host()
+					if rng.Intn(4) == 0 {
+						src = net(1 + rng.Intn(2))
+					}
+					l := fmt.Sprintf("%s %s %s %s", act, proto, src, host())
+					if proto != "ip" && rng.Intn(2) == 0 {
+						l += fmt.Sprintf(" eq %d", 80+rng.Intn(2))
+					}
+					return l
+				}
+				broad := func(act string) string {
+					switch rng.Intn(4) {
+					case 0:
+						return fmt.Sprintf("%s ip %s %s", act, net(1+rng.Intn(2)), anyW)
+					case 1:
+						return fmt.Sprintf("%s ip %s %s", act, anyW, host())
+					case 2:
+						return fmt.Sprintf("%s %s %s %s eq %d", act, []string{"tcp", "udp"}[rng.Intn(2)], anyW, anyW, 80+rng.Intn(2))
+					}
+					return fmt.Sprintf("%s ip %s %s", act, host(), anyW)
 				}
 				var tl []string
 				for n := 6 + rng.Intn(5); n > 0; n-- {
-					tl = append(tl, withAction(x))
+					tl = append(tl, narrow(x))
 				}
 				tl = mcisco.DedupLines(tl, kind == "ios")
 				dl := append([]string{}, tl...)
+				// Splitters overlap a chosen entry in front of them; on the
+				// device that entry often sits further down, so that it has
+				// to move up across the place of the new splitter.
+				var victims []string
 				for n := 2 + rng.Intn(2); n > 0 && len(tl) > 2; n-- {
-					i := 1 + rng.Intn(len(tl)-1)
-					tl = append(tl[:i:i], append([]string{withAction(y)}, tl[i:]...)...)
+					v := rng.Intn(len(tl) - 1)
+					w := strings.Fields(tl[v])
+					sp := broad(y)
+					if w[0] == x && rng.Intn(4) != 0 {
+						// x proto SRC.. DST..
+						srcLen := 2
+						if w[2] != "host" {
+							srcLen = 2 // net + wildcard / mask
+						}
+						src := strings.Join(w[2:2+srcLen], " ")
+						rest := w[2+srcLen:]
+						dst := strings.Join(rest[:2], " ")
+						switch rng.Intn(3) {
+						case 0:
+							sp = fmt.Sprintf("%s ip %s %s", y, src, anyW)
+						case 1:
+							sp = fmt.Sprintf("%s ip %s %s", y, anyW, dst)
+						case 2:
+							sp = fmt.Sprintf("%s %s %s %s", y, w[1], anyW, anyW)
+						}
+						victims = append(victims, tl[v])
+					}
+					i := v + 1 + rng.Intn(len(tl)-v-1)
+					tl = append(tl[:i:i], append([]string{sp}, tl[i:]...)...)
 				}
 				last := a.Lines[len(a.Lines)-1]
 				tl = mcisco.DedupLines(append(tl, last), kind == "ios")
 				dl = append(dl, last)
-				for n := 1 + rng.Intn(2); n > 0 && len(dl) > 3; n-- {
-					i, j := rng.Intn(len(dl)-1), rng.Intn(len(dl)-2)
+				move := func(i, j int) {
 					l := dl[i]
 					dl = append(dl[:i:i], dl[i+1:]...)
 					dl = append(dl[:j:j], append([]string{l}, dl[j:]...)...)
+				}
+				for _, v := range victims {
+					if rng.Intn(5) < 3 {
+						for i, l := range dl {
+							if l == v && i < len(dl)-2 {
+								move(i, i+1+rng.Intn(len(dl)-2-i))
+								break
+							}
+						}
+					}
+				}
+				for n := rng.Intn(2); n > 0 && len(dl) > 3; n-- {
+					move(rng.Intn(len(dl)-1), rng.Intn(len(dl)-2))
 				}
 				if rng.Intn(3) == 0 {
 					// One splitter already on the device.
@@ -420,7 +532,7 @@ func checkC14(tier, replay string) int {
 	defer env.Cleanup()
 	env.BuildRepo(false)
 	rep := ev.New(env, "exploration")
-	n := 2000
+	n := 2400
 	if tier == "thorough" {
 		n = 30000
 	}
